@@ -869,6 +869,7 @@ func (vc *VC) allocRef(st *State, prefix string) Term {
 // ---------- frames ----------
 
 type loopInfo struct {
+	blk     *inlBlock
 	header  *ssa.BasicBlock
 	body    map[*ssa.BasicBlock]bool
 	ordinal int
@@ -899,6 +900,7 @@ type frame struct {
 	entrySt  *State
 	override map[ssa.Value]Sym
 	locals   map[*ssa.Alloc]adv
+	blocks   []*inlBlock
 }
 
 func (vc *VC) newFrame(fn *ssa.Function, depth int) *frame {
@@ -1325,9 +1327,15 @@ func (f *frame) run(st *State) {
 	}
 	f.entrySt = st
 	f.loops = analyzeLoops(fn)
+	if f.depth == 0 && !f.specMode {
+		f.blocks = vc.eng.inlineBlocks(fn)
+	}
 	if f.ct != nil {
 		for _, li := range f.loops {
 			li.spec = f.ct.Loops[fmt.Sprint(li.ordinal)]
+			if li.spec == nil {
+				li.spec, li.blk = f.loopBlockSpec(li)
+			}
 		}
 		for k := range f.ct.Loops {
 			found := false
@@ -1390,6 +1398,21 @@ func (f *frame) run(st *State) {
 					vals[i] = f.val(phi.Edges[pi])
 				}
 				f.env[phi] = vc.mergeSyms("phi_"+phi.Name(), phi.Type(), guards, vals)
+			}
+		}
+		if len(f.blocks) > 0 {
+			// go-inline sections end before the havoc of a following loop header
+			for ii, x := range b.Instrs {
+				if _, isDbg := x.(*ssa.DebugRef); isDbg {
+					continue
+				}
+				if _, isPhi := x.(*ssa.Phi); isPhi {
+					continue
+				}
+				if x.Pos().IsValid() {
+					f.blockExits(b, ii, x.Pos(), cur)
+					break
+				}
 			}
 		}
 		if li := f.loops[b]; li != nil {
@@ -1742,6 +1765,12 @@ func (f *frame) execBlock(b *ssa.BasicBlock, cur *State) {
 		case *ssa.If, *ssa.Jump:
 			// handled at edges
 		case *ssa.Return:
+			for ii, xi := range b.Instrs {
+				if xi == in {
+					f.blockHooks(b, ii, in, cur)
+					break
+				}
+			}
 			vals := make([]Sym, len(x.Results))
 			for i, r := range x.Results {
 				vals[i] = f.val(r)
@@ -1768,6 +1797,12 @@ func (f *frame) execBlock(b *ssa.BasicBlock, cur *State) {
 			}
 			cur = &State{dead: true}
 		default:
+			for ii, x := range b.Instrs {
+				if x == in {
+					f.blockHooks(b, ii, in, cur)
+					break
+				}
+			}
 			f.checkAsserts(b, in, cur)
 			if f.isCut(in) {
 				cur = &State{dead: true}
